@@ -17,6 +17,7 @@ pub unsafe fn match_uri_vectored(bytes: &mut Bytes) {
 #[inline(always)]
 #[allow(non_snake_case)]
 unsafe fn match_url_char_16_sse(buf: &[u8]) -> usize {
+    #[cfg(httparse_verif)] crate::verif::op(crate::verif::OP_LOAD, 16, buf.as_ptr() as usize, buf.as_ptr() as usize, buf.as_ptr() as usize + buf.len());
     debug_assert!(buf.len() >= 16);
 
     #[cfg(target_arch = "x86")]
@@ -56,6 +57,7 @@ pub unsafe fn match_header_value_vectored(bytes: &mut Bytes) {
 #[inline(always)]
 #[allow(non_snake_case)]
 unsafe fn match_header_value_char_16_sse(buf: &[u8]) -> usize {
+    #[cfg(httparse_verif)] crate::verif::op(crate::verif::OP_LOAD, 16, buf.as_ptr() as usize, buf.as_ptr() as usize, buf.as_ptr() as usize + buf.len());
     debug_assert!(buf.len() >= 16);
 
     #[cfg(target_arch = "x86")]
